@@ -14,7 +14,7 @@ func init() {
 		ID:          "C07",
 		Title:       "Transactions are all-or-nothing and every failure reaches the caller",
 		Technique:   "static analysis: SSA branch-fact dataflow (no nil return under a known error), discarded-error-result rule over resolved callees, error-holder consultation on all paths, must-pass ordering in the Update/Batch closures, call-graph who-may-call rule for post-commit work",
-		LevelText:   "Structural necessary conditions decided for every function and path of boltz/ast/objectz/zitiql: no error is replaced by success, no error result is dropped, the ErrorHolder chain is consulted before success, pre-commit work precedes success inside the bolt closure, post-commit work is reachable only through tx.OnCommit. The rollback itself is bbolt's and is trusted. Added later: an indexing context built for a parent chain shares one holder (CHAINHOLDER); a function handed an error holder consults it before it writes (HANDEDHOLDER); results of fallible steps are looked at on every path (LOOKEDAT); a dropped error result is accepted only when the callee has also recorded it in the holder of its receiver. Added in round 9: a failure found in a child bucket is recorded in the receiver or returned on every path (CHILDERR). Added in round 11: a failed index bucket is recorded or returned (INDEXBUCKETERR); a function that queues a callback does not run it (ACTIONRUN); the persist context writes through the bucket object the indexing context records into (SAMEBUCKET). Added in round 12: the pre-commit/commit action lists are rewritten only by their registrars (ACTIONS, cross-listed).",
+		LevelText:   "Structural necessary conditions decided for every function and path of boltz/ast/objectz/zitiql: no error is replaced by success, no error result is dropped, the ErrorHolder chain is consulted before success, pre-commit work precedes success inside the bolt closure, post-commit work is reachable only through tx.OnCommit. The rollback itself is bbolt's and is trusted. Added later: an indexing context built for a parent chain shares one holder (CHAINHOLDER); a function handed an error holder consults it before it writes (HANDEDHOLDER); results of fallible steps are looked at on every path (LOOKEDAT); a dropped error result is accepted only when the callee has also recorded it in the holder of its receiver. Added in round 9: a failure found in a child bucket is recorded in the receiver or returned on every path (CHILDERR). Added in round 11: a failed index bucket is recorded or returned (INDEXBUCKETERR); a function that queues a callback does not run it (ACTIONRUN); the persist context writes through the bucket object the indexing context records into (SAMEBUCKET). Added in round 12: the pre-commit/commit action lists are rewritten only by their registrars (ACTIONS, cross-listed). Added in round 13: every method of the system context hands the call to the wrapped context and keeps no state of its own (WRAPFORWARD); EXISTS as in C04 (a missing fk target is an error on every path).",
 		LevelNote:   "Trusted: Go type checker, x/tools SSA (v0.29.0), bbolt's rollback-on-error, tabled exceptions in checker/rules_errors.go. Not decided: byte-level state after rollback, failure injection at arbitrary storage calls.",
 		DesignRef:   "DESIGN.md C07",
 		Explanation: "All non-generated functions of ast, boltz, objectz, zitiql are enumerated from SSA. SWALLOW: for every function with an error result, a forward must-dataflow of branch facts decides at each return whether some error value is known non-nil while nil is returned. DROP: every call whose signature has an error result must bind and use it. HOLDER: for every error-returning function, every TypedBucket/ErrorHolder that was mutated or has escaped must be consulted (HasError/GetError/.Err) on every path to a success return. TXFN: in the closures handed to bbolt DB.Update/Batch, setTx < fn(ctx) < runPreCommitActions on every path to a nil return. POSTCOMMIT: greatest fixpoint of 'reachable only via a function value registered with bbolt Tx.OnCommit' must contain every function that invokes ProcessPostCommit, runs commit actions or tx-complete listeners.",
